@@ -117,7 +117,9 @@ def run(chk):
     hdrs = ['bytes=0-0', 'bytes=0-', 'bytes=-3', 'bytes=-30', 'bytes=-0', 'bytes=9-', 'bytes=10-', 'bytes=5-2', 'bytes=2-100',
             'bytes=0-4,6-8', 'bytes=50-60,0-1', 'junk', 'bytes=', 'bytes=-', 'bytes=a-b', 'bytes= 1 - 2 ', 'bytes=+1-+2',
             'bytes=1_0-', 'xbytes=1-2', 'bytes=1-2-3', 'BYTES=1-2', '', None, 'bytes=3-3', 'bytes=12-12', 'bytes=99-99', 'bytes=0-99',
-            'bytes=100-', 'bytes=-100', 'bytes=-101', 'bytes=249-300']
+            'bytes=100-', 'bytes=-100', 'bytes=-101', 'bytes=249-300',
+            # optional white space around the commas of the list (RFC 7230 section 7)
+            'bytes=4- , 0-1', 'bytes=4- ,0-1', 'bytes=0-5 , 10-20', 'bytes=-3 ,0-1', 'bytes=4-\t, 0-1', 'bytes=0-5, 10-20', 'bytes=2-\t,\t0-0']
     for h in hdrs:
         for L in (0, 1, 7, 13, 100, 250):
             for ims in ('absent', 'older', 'equal', 'newer', 'junk'):
